@@ -16,7 +16,7 @@ THEOREMS = [
     "CKT.C03.posAfter_in_range", "CKT.C03.posAfter_injective", "CKT.C03.move_target_in_range",
 ]
 RULE = ("circuits on 1-4 qubits (one or several named registers, optional classical registers) with 0-4 wire-cut markers in random "
-        "interleavings (thorough: every interleaving of the marker pattern across qubits for small shapes), both factories (Move / wrapped Move); "
+        "interleavings, CutWire instances or name-only 'cut_wire' gates (thorough: every interleaving of the marker pattern across qubits for small shapes), both factories (Move / wrapped Move); "
         "non-trivial = at least one marker; distinct by payload")
 ASSUMPTIONS = ["QuantumCircuit.compose/add_bits/add_register are Qiskit's (modelled as index arithmetic over qubit identities)",
                "reference semantics for the failing-input search: density-matrix simulation with Move = reset(dst); swap"]
@@ -36,7 +36,8 @@ def cases(rng, tier):
         nmark = rng.randint(0, 4)
         instrs = _mk(rng, nq, nmark, rng.randint(0, 8))
         yield ("transform", {"nq": nq, "qregs": gen.rand_regs(rng, nq), "instrs": instrs, "wrap": rng.random() < 0.5,
-                             "cregs": rng.choice([[], [], [["c", 2]]]), "obs": gen.rand_paulis(rng, nq, 2, "IXYZ")})
+                             "cregs": rng.choice([[], [], [["c", 2]]]), "obs": gen.rand_paulis(rng, nq, 2, "IXYZ"),
+                             "generic": rng.random() < 0.2})
     if tier == "thorough":
         # every interleaving of marker/gate patterns: sequences over {mark q0, mark q1, cx01, h0, h1} of length <= 5 on 2 qubits
         alpha = [{"name": "cut_wire", "qubits": [0]}, {"name": "cut_wire", "qubits": [1]}, {"name": "cx", "qubits": [0, 1]},
@@ -50,7 +51,14 @@ def cases(rng, tier):
 
 
 def _circ(payload):
-    return canon.build_circuit({"nq": payload["nq"], "qregs": payload["qregs"], "cregs": payload["cregs"], "instrs": payload["instrs"]})
+    qc = canon.build_circuit({"nq": payload["nq"], "qregs": payload["qregs"], "cregs": payload["cregs"], "instrs": payload["instrs"]})
+    if payload.get("generic"):
+        # markers that are recognised by their name only (what a QPY save/load round trip of a marked circuit produces)
+        from qiskit.circuit import Gate
+        for k, inst in enumerate(qc.data):
+            if inst.operation.name == "cut_wire":
+                qc.data[k] = inst.replace(operation=Gate("cut_wire", 1, []))
+    return qc
 
 
 def model_line(kind, payload):
